@@ -2,39 +2,42 @@
   C10 — at most 10 connections; excess get 503 and close; dead connections are reaped.
 -/
 import MicroHttp.ServerSpec
+import MicroHttp.Proofs.SrvInv
 namespace MicroHttp.C10
 open MicroHttp
 
 theorem inv_new : SrvInv Srv.new := by
-  sorry
+  refine ⟨?_, ?_, ?_, ?_, ?_, ?_, ?_⟩ <;> simp [Srv.new, Srv.fds, Srv.insts]
 
 /-- The server invariant — in particular `conns.length ≤ 10`, unique descriptors, live tokens —
     is preserved by a poll over ANY admissible batch of events with ANY read/write results. -/
 theorem requests_inv (s : Srv) (h : SrvInv s) (evs : List Ev) (hev : EvsOK s evs) :
     SrvInv (requests s evs).1 := by
-  sorry
+  exact requests_inv' s h evs hev
 
 /-- … by responding to an outstanding token (A1: at most one response per yielded request) … -/
 theorem respond_inv (s : Srv) (h : SrvInv s) (tok : Token) (htok : tok ∈ s.outstanding) (r : Response) :
     SrvInv (respond s tok r).1 := by
-  sorry
+  exact respond_inv' s h tok htok r
 
 /-- … and by flushing, whatever the writes return. -/
 theorem flush_inv (s : Srv) (h : SrvInv s) (script : Nat → List SinkStep) :
     SrvInv (flush s script).1 := by
-  sorry
+  exact flush_inv' s h script
 
 /-- At capacity a connecting client is refused: it gets the fixed 503 message (effect `refused`),
     nothing is yielded, and no existing connection — no state of the server at all — changes. -/
 theorem refuse_at_capacity (s : Srv) (newFd : Nat) (h : s.conns.length = MAX_CONNECTIONS) :
     handleEv s (.listener newFd) = (s, [], [.refused newFd], none) := by
-  sorry
+  exact handleEv_listener_full s newFd h
 
 /-- Below capacity it is accepted with a fresh identity, an empty connection and IN interest. -/
 theorem accept_below_capacity (s : Srv) (newFd : Nat) (h : s.conns.length < MAX_CONNECTIONS) (hfd : newFd ∉ s.fds) :
     (handleEv s (.listener newFd)).1.conns =
       s.conns ++ [{ fd := newFd, inst := s.nextInst, conn := Conn.new s.limit }] := by
-  sorry
+  rw [handleEv_listener_accept s newFd (by omega)]
+  simp only
+  rw [filter_fd_ne_of_not_mem s.conns newFd hfd]
 
 /-- The 503 message: status 503, `Connection: close`, and a Content-Length equal to the length of
     its JSON body (40). -/
@@ -43,27 +46,39 @@ theorem server_full_message :
       find CRLFCRLF head = none ∧
       [0x48, 0x54, 0x54, 0x50, 0x2F, 0x31, 0x2E, 0x31, 0x20, 0x35, 0x30, 0x33] <+: head ∧
       [0x43, 0x6F, 0x6E, 0x74, 0x65, 0x6E, 0x74, 0x2D, 0x4C, 0x65, 0x6E, 0x67, 0x74, 0x68, 0x3A, 0x20, 0x34, 0x30] <:+ head := by
-  sorry
+  refine ⟨SERVER_FULL_ERROR_MESSAGE.take 76, SERVER_FULL_ERROR_MESSAGE.drop 80, ?_, ?_, ?_, ?_, ?_⟩ <;> decide
 
 /-- Reaping: after a completed poll no connection that is closed, has nothing left to write and
     no unanswered request survives — it is dropped (epoll_del + close) in that very call. -/
 theorem reaped (s : Srv) (evs : List Ev) (reqs : List (Token × Request))
     (h : (requests s evs).2.1 = .ok reqs) :
     ∀ c ∈ (requests s evs).1.conns, c.isDone = false := by
-  sorry
+  intro c hc
+  cases ha : (runEvents s evs [] []).2.2.2 with
+  | some a => rw [requests_eq_aborted s evs a ha] at h; cases h
+  | none =>
+    rw [requests_eq_ok s evs ha] at hc
+    have := (List.mem_filter.mp hc).2
+    simpa using this
 
 /-- Under the invariant "closed" already implies "nothing left to write": a closed connection is
     released as soon as the application has answered what was yielded from it. -/
 theorem closed_released_when_answered (s : Srv) (hI : SrvInv s) (evs : List Ev) (hev : EvsOK s evs)
     (reqs : List (Token × Request)) (h : (requests s evs).2.1 = .ok reqs) :
     ∀ c ∈ (requests s evs).1.conns, c.state = .closed → 0 < c.inflight := by
-  sorry
+  intro c hc hcl
+  have hinv := requests_inv' s hI evs hev
+  have hnd := reaped s evs reqs h c hc
+  have hnp := (hinv.clients c hc).nopending (by rw [hcl]; intro e; cases e)
+  unfold Client.isDone at hnd
+  simp only [hcl, hnp, decide_true, Bool.not_false, Bool.and_self, Bool.true_and, decide_eq_false_iff_not] at hnd
+  omega
 
 /-- Nothing else ever removes a connection: every connection that disappears in a poll was done,
     and is reported as dropped. -/
 theorem only_done_are_dropped (s : Srv) :
     (sweep s).1.conns = s.conns.filter (fun c => !c.isDone) ∧
     (sweep s).2 = (s.conns.filter (fun c => c.isDone)).map (fun c => Effect.dropped c.fd c.inst) := by
-  sorry
+  exact ⟨rfl, rfl⟩
 
 end MicroHttp.C10
